@@ -287,3 +287,174 @@ class GetCookie(Contract):
 
 
 CONTRACTS = [Lscmp(), IsEncoded(), CookieDecode(), CookieEncode(), GetCookie()]
+
+
+# ------------------------------------------------------------------------------------------- BaseResponse.set_cookie
+from pyvc.engine import Val, VList as _VList, StrSort, VTuple, VStr, VObj, Unsupported   # noqa: E402,F811
+
+Txt = z3.DeclareSort('Txt')          # a python str value, opaque: only its identity and its length matter here
+txt_len = z3.Function('txt_len', Txt, z3.IntSort())
+
+
+class _Text(Val):
+    def __init__(self, t):
+        self.t = t
+
+
+class _Jar(Val):
+    """self._cookies: a SimpleCookie (or None before the first cookie); records item stores"""
+    mutable = True
+    nonempty = False
+
+    def __init__(self, present):
+        self.present = present
+        self.stores = []
+
+    def truth(self, X):
+        return z3.BoolVal(bool(self.present and self.nonempty))
+
+    def clone(self, memo):
+        return self
+
+
+class _Morsel(Val):
+    def __init__(self, jar, name):
+        self.jar, self.name = jar, name
+
+
+class _Options(Val):
+    def __init__(self, items):
+        self.items_ = items
+
+
+class SetCookie(Contract):
+    """the response side of the cookie round trip: what is put into the cookie jar under `name` is, with a secret, exactly
+    cookie_encode((name, value), secret) as text - the pair carries the SAME name it is stored under, which is what get_cookie checks
+    after decoding - and without a secret the text value itself; a non-text value without a secret is a TypeError, a stored text longer
+    than 4096 a ValueError, and in both cases nothing is stored."""
+    props = ('C15',)
+    file = 'ombott/response.py'
+    qualname = 'BaseResponse.set_cookie'
+    assumptions = ('callee contract of cookie_encode as proved (layout + inverse lemma); touni() of its ASCII result is the same text',
+                   'http.cookies.SimpleCookie item assignment stores the value under the name (library; transport is the bounded clause)',
+                   'keyword options (max_age, expires, path ...) are not modelled: the call is checked without options',
+                   'text values are opaque objects with a length (no string theory needed: only identity and len() are used)')
+    expected_labels = ('jar.signed_value_is_encoding_of_the_pair_under_this_name', 'jar.plain_text_stored_as_it_is',
+                       'jar.exactly_one_value_store_under_the_name', 'raise.type_error_iff_non_text_without_secret',
+                       'raise.value_error_iff_too_long_and_nothing_stored')
+
+    def pre(self, X):
+        self.name = _Text(X.fresh(Txt, 'name'))
+        self.vkind = X.choose(2, 'value: text | other object')
+        self.value = _Text(X.fresh(Txt, 'value')) if self.vkind == 0 else VOpaque(X.fresh(PyObj, 'value'), 'object')
+        self.skind = X.choose(2, 'secret: None | given')
+        self.secret = NONE if self.skind == 0 else VOpaque(X.fresh(PyObj, 'secret'), 'secret')
+        if self.skind == 1:
+            X.assume(X.driver.uf('truthy', PyObj, z3.BoolSort())(self.secret.t))      # a falsy secret ('' / b'') means: no secret
+            X.assume(z3.Not(X.driver.uf('is_none', PyObj, z3.BoolSort())(self.secret.t)))
+        if self.vkind == 1:
+            X.assume(z3.Not(X.driver.uf('isinstance', PyObj, z3.StringSort(), z3.BoolSort())(self.value.t, z3.StringVal('str'))))
+        self.enc = X.driver.uf('cookie_encode_text', Txt, PyObj, PyObj, Txt)   # (name, value as object, secret) -> text
+        self.as_obj = X.driver.uf('text_as_object', Txt, PyObj)
+        self.jar0 = X.choose(2, 'jar: None | existing')
+        self.jar = _Jar(self.jar0 == 1)
+        self.jar.nonempty = bool(self.jar0 == 1 and X.choose(2, 'existing jar empty | non-empty'))
+        self.new_jar = None
+        c = self
+
+        def cookie_encode(X, args, kwargs):
+            pair, key = args[0], args[1]
+            ok = isinstance(pair, VTuple) and len(pair.items) == 2 and isinstance(pair.items[0], _Text) and key is c.secret
+            r = VOpaque(X.fresh(PyObj, 'encoded_bytes'), 'bytes')
+            if not ok:
+                X.prove('jar.signed_value_is_encoding_of_the_pair_under_this_name', z3.BoolVal(False))
+                r.enc_text = X.fresh(Txt, 'enc')
+                return r
+            v = pair.items[1]
+            vobj = c.as_obj(v.t) if isinstance(v, _Text) else v.t
+            r.enc_text = c.enc(pair.items[0].t, vobj, key.t)
+            return r
+
+        def touni(X, args, kwargs):
+            a = args[0]
+            if hasattr(a, 'enc_text') and len(args) == 1:
+                return _Text(a.enc_text)
+            raise Unsupported('touni of something else')
+        self.stubs = {'cookie_encode': cookie_encode, 'touni': touni}
+        self.me = VObj('Response', {'_cookies': self.jar if self.jar0 == 1 else NONE})
+        return {'self': self.me, 'name': self.name, 'value': self.value, 'secret': self.secret, 'options': _Options([])}
+
+    def construct_hook(self, X, pyclass, args, kwargs):
+        if getattr(pyclass, '__name__', '') == 'SimpleCookie' and not args:
+            self.new_jar = _Jar(True)
+            return self.new_jar
+        return None
+
+    def method_hook(self, X, obj, name, args, kwargs):
+        if isinstance(obj, _Options) and name == 'items' and not args:
+            return _VList(list(obj.items_))
+        return None
+
+    def isinstance_hook(self, X, v, classes):
+        if isinstance(v, _Text):
+            return z3.BoolVal(str in classes)
+        return None
+
+    def builtin_hook(self, X, name, args, kwargs):
+        if name == 'len' and len(args) == 1 and isinstance(args[0], _Text):
+            X.assume(txt_len(args[0].t) >= 0)
+            return VInt(txt_len(args[0].t))
+        return None
+
+    def getitem_hook(self, X, obj, key):
+        if isinstance(obj, _Jar) and isinstance(key, _Text):
+            return _Morsel(obj, key.t)
+        return None
+
+    def setitem_hook(self, X, obj, key, val):
+        if isinstance(obj, _Jar) and isinstance(key, _Text):
+            obj.stores.append((key.t, val))
+            return True
+        if isinstance(obj, _Morsel):
+            X.prove('jar.options_set_on_the_cookie_just_stored', obj.name == self.name.t)
+            return True
+        return False
+
+    def _the_jar(self):
+        j = self.me.fields.get('_cookies')
+        return j if isinstance(j, _Jar) else None
+
+    def _value_obj(self):
+        return self.as_obj(self.value.t) if isinstance(self.value, _Text) else self.value.t
+
+    def post(self, X, ret):
+        j = self._the_jar()
+        own = j is not None and ((self.jar0 == 1 and self.jar.nonempty and j is self.jar) or
+                                 ((self.jar0 == 0 or not self.jar.nonempty) and j is self.new_jar))
+        if not (own and len(j.stores) == 1):
+            X.prove('jar.exactly_one_value_store_under_the_name', z3.BoolVal(False))
+            return
+        k, v = j.stores[0]
+        X.prove('jar.exactly_one_value_store_under_the_name', k == self.name.t)
+        if self.skind == 1:
+            X.prove('jar.signed_value_is_encoding_of_the_pair_under_this_name',
+                    v.t == self.enc(self.name.t, self._value_obj(), self.secret.t) if isinstance(v, _Text) else z3.BoolVal(False))
+        else:
+            X.prove('jar.plain_text_stored_as_it_is',
+                    v.t == self.value.t if isinstance(v, _Text) and self.vkind == 0 else z3.BoolVal(False))
+        if isinstance(v, _Text):
+            X.prove('jar.stored_text_within_4096', txt_len(v.t) <= 4096)
+
+    def post_raise(self, X, exc):
+        j = self._the_jar()
+        nothing = j is None or not j.stores
+        if exc.pyclass is TypeError:
+            X.prove('raise.type_error_iff_non_text_without_secret', z3.BoolVal(self.skind == 0 and self.vkind == 1 and nothing))
+        elif exc.pyclass is ValueError:
+            text = self.value.t if self.skind == 0 else self.enc(self.name.t, self._value_obj(), self.secret.t)
+            X.prove('raise.value_error_iff_too_long_and_nothing_stored', z3.And(txt_len(text) > 4096, z3.BoolVal(nothing)))
+        else:
+            X.prove('raises.only_type_or_value_error', z3.BoolVal(False))
+
+
+CONTRACTS.append(SetCookie())
